@@ -85,6 +85,17 @@ where
     pub fn dim(&self) -> usize {
         self.dim1() + self.dim2()
     }
+
+    // distance of z from the boundary of the dual cone, evaluated
+    // exactly as in update_dual_grad_H
+    fn dual_ζ(&self, z: &[T]) -> T {
+        let α = &self.α;
+        let dim1 = self.dim1();
+        let two: T = (2.).as_T();
+
+        let phi = zip(α, z).fold(T::one(), |phi, (&αi, &zi)| phi * (zi / αi).powf(two * αi));
+        phi - z[dim1..].sumsq()
+    }
 }
 
 impl<T> Cone<T> for GenPowerCone<T>
@@ -152,6 +163,12 @@ where
         μ: T,
         _scaling_strategy: ScalingStrategy,
     ) -> bool {
+        // z can drift numerically onto the boundary of the dual cone.
+        // Report that as a scaling failure rather than asserting below.
+        if !(self.dual_ζ(z) > T::zero()) {
+            return false;
+        }
+
         // update both gradient and Hessian for function f*(z) at the point z
         self.update_dual_grad_H(z);
         self.data.μ = μ;
@@ -363,6 +380,7 @@ where
         let data = &mut self.data;
         let two: T = (2.).as_T();
 
+        // NB: keep in sync with dual_ζ
         let phi = zip(α, z).fold(T::one(), |phi, (&αi, &zi)| phi * (zi / αi).powf(two * αi));
 
         let norm2w = z[dim1..].sumsq();
